@@ -28,6 +28,10 @@ def configs(tier, seed):
   for i, (cr, up) in enumerate(wl):
     for shut in ([None, 4] if tier == 'quick' else [None, 1, 4, 1000]):
       cfgs.append(dict(name='writer/c%s/u%s/s%s' % (cr, up, shut), mode='writer', creates=cr, updates=up, shutdown=shut))
+  # the other write strategies decide what is drained next - none of them may let an update go by without a token
+  for i, st in enumerate(('max', 'naive', 'timesorted', 'bucketmax', 'random')):
+    for (cr, up) in ((('inf', 2),) if tier == 'quick' else (('inf', 2), (60, 5), ('inf', 1))):
+      cfgs.append(dict(name='writer/c%s/u%s/%s' % (cr, up, st), mode='writer', creates=cr, updates=up, shutdown=None, strategy=st))
   # a bounded cache under flow control and a sender that overloads it: the cache-full / space-available events fire again
   # and again while the writer works under its limits
   for (cr, up, full) in ([('inf', 5, 30), (60, 20, 100)] if tier == 'quick' else [('inf', 5, 30), (60, 20, 100), ('inf', 1, 10), ('inf', 50, 400), (30, 'inf', 50)]):
@@ -143,7 +147,7 @@ def run_bucket(cfg, res):
 
 def run_writer(cfg, res):
   from vlib import boot, sched, memdb
-  conf = {'MAX_CREATES_PER_MINUTE': cfg['creates'], 'MAX_UPDATES_PER_SECOND': cfg['updates'], 'CACHE_WRITE_STRATEGY': 'sorted'}
+  conf = {'MAX_CREATES_PER_MINUTE': cfg['creates'], 'MAX_UPDATES_PER_SECOND': cfg['updates'], 'CACHE_WRITE_STRATEGY': cfg.get('strategy', 'sorted')}
   if cfg['shutdown'] is not None:
     conf['MAX_UPDATES_PER_SECOND_ON_SHUTDOWN'] = cfg['shutdown']
   if cfg.get('full'):
